@@ -263,6 +263,7 @@ PROPS = {
         subs=[
             rapid("parse", "TestC13Parse", 15000, 150000),
             enum("enumerated", "TestC13Enumerated"),
+            rapid("character-prefix", "TestC13CharacterPrefix", 1500, 8000, shards=dict(quick=1, thorough=2)),
             fuzz("parse", "FuzzC13Parse", 45),
         ],
     ),
